@@ -125,7 +125,9 @@ def parsePrim (fl : Flags) (p : Nat) (ts : List Tok) : Option (E × List Tok) :=
     match parsePrim fl C12Tables.notOperandPrec r with
     | some (e, r') => if _ : r'.length ≤ r.length then loop fl p (.not e) r' else none
     | none => none
-  | _ :: _ => none                                        -- "expected a primitive expression"
+  | .op _ :: _ => none                                    -- "expected a primitive expression, found …"
+  | .rp :: _ => none
+  | .junk :: _ => none
 termination_by ts.length
 decreasing_by all_goals simp_wf <;> omega
 /-- the `while True:` loop of `parse_boolean_primitive`, `left` parsed so far -/
